@@ -44,6 +44,8 @@ def case(draw):
         b = G.map_atoms(a, lambda n: G.partner_of(draw, n, mild=True))
         cc = G.map_atoms(a, lambda n: G.partner_of(draw, n, mild=True))
         c["units"] = [R.render(a), R.render(b, draw(st.integers(0, 1))), R.render(cc)]
+        # one case in four lives in a private registry that re-scales default symbols (incl. base units of the built-in systems)
+        c["modreg"] = draw(st.integers(0, 3)) == 0
     elif fam == "dimless":
         pool = ["", "dimensionless", "percent", "%", "km/m", "cm/m", "mmol", "mol", "g/kg", "Msun/g", "1", "ppm" if False else "percent", "min/s", "rad/degree" if False else "km/cm"]
         c["units"] = [draw(st.sampled_from(pool)) for _ in range(3)]
@@ -88,6 +90,12 @@ def _registry(case):
     import unyt.dimensions as D
 
     cu = case.get("custom")
+    if not cu and case.get("modreg"):
+        reg = UnitRegistry()
+        for k_, sym in enumerate(("g", "m", "s", "K", "Msun", "pc", "yr", "mile", "ft", "lb", "erg", "J", "eV", "Hz", "N", "W", "AU", "hr", "inch", "kpc", "Myr")):
+            if sym in reg.lut:
+                reg.modify(sym, float(reg.lut[sym][0]) * (2.0 + (k_ % 4)))
+        return reg, {}
     if not cu:
         return None, {}
     reg = UnitRegistry()
@@ -235,7 +243,7 @@ def judge(case, part):
         res = {}
         # the request is spelled the way users spell it -- as a string -- whenever the default registry is in play
         # (the Unit-object spelling is exercised by the custom-registry family and by `by_hand`)
-        tgt = Uname if (Uname != "SI" and reg is None) else U
+        tgt = Uname if (Uname != "SI" and (reg is None or case.get("modreg"))) else U
         res["to"] = _try(lambda: q.to(tgt))
         res["in_units"] = _try(lambda: q.in_units(tgt))
         res["to_value"] = _try(lambda: q.to_value(tgt))
@@ -321,6 +329,9 @@ def judge(case, part):
         ("in_base(cgs)", lambda q: q.in_base("cgs"), lambda q: q.convert_to_base("cgs")),
         ("in_base(mks)", lambda q: q.in_base("mks"), lambda q: q.convert_to_base("mks")),
     ]
+    if case.get("modreg"):
+        twins += [("in_base(galactic)", lambda q: q.in_base("galactic"), lambda q: q.convert_to_base("galactic")),
+                  ("in_base(imperial)", lambda q: q.in_base("imperial"), lambda q: q.convert_to_base("imperial"))]
     got = {}
     for nm, cp, ip in twins:
         s1, r1 = _try(lambda: cp(x))
@@ -336,6 +347,13 @@ def judge(case, part):
         if eps > 1e-10 and not (np.all(np.isfinite(np.asarray(r1))) and np.all(np.isfinite(np.asarray(r2)))
                                  and np.all((np.asarray(r1) != 0) == (np.asarray(x) != 0))):
             part.count("excluded_range (32-bit data: base-unit factor over/underflows float32)")
+            continue
+        bv_ = abs(float(r1.units.base_value))
+        a1_ = np.abs(np.asarray(r1).astype(complex))
+        tiny_ = 1e-30 if max(eps, _feps(r1)) > 1e-10 else 1e-280
+        if not math.isfinite(bv_) or bv_ == 0 or abs(math.log10(bv_)) > 100 or not np.all(np.isfinite(a1_)) or np.any((a1_ != 0) & ((a1_ < tiny_) | (a1_ > 1 / tiny_))) \
+                or np.any((a1_ == 0) != (np.asarray(x) == 0)) or (tiny_ == 1e-30 and not (1e-30 < abs(float(A.base_value)) / bv_ < 1e30)):
+            part.count("excluded_range (base-unit scale or values leave the float range)")
             continue
         got[nm] = r1
         e2 = max(eps, _feps(r1), _feps(r2))
